@@ -69,6 +69,10 @@ def framing_streams(rng, n):
     return out
 
 
+PAUSES = (0.2, 1.5, 0.999, 1.0, 30.0, 1.001, 61.0, 0.05, 2.0, 5.0)
+PAUSE_I = [0]
+
+
 async def run_stream_face(face_cls, chunks, eof=True, gap='yield', face=None, ret_face=False):
     """gap: 'yield' - the loop runs between chunks and before EOF; 'eof-with-last' - the last chunk and EOF become readable in the
     same loop turn; 'burst' - everything (and EOF) is buffered before run() gets to read at all (peer wrote and closed at once)."""
@@ -87,6 +91,10 @@ async def run_stream_face(face_cls, chunks, eof=True, gap='yield', face=None, re
             face.reader.feed_data(ch)
         if gap == 'yield' or (gap == 'eof-with-last' and ci < len(chunks) - 1):
             await asyncio.sleep(0)
+        elif gap == 'pause':
+            # the peer (or the network) pauses between two reads - in the middle of a packet, for a fraction of a second up to minutes
+            PAUSE_I[0] += 1
+            await asyncio.sleep(PAUSES[PAUSE_I[0] % len(PAUSES)])
     if eof:
         face.reader.feed_eof()
     for _ in range(6):
@@ -125,10 +133,11 @@ def check_framing(ctx, rng):
     if not ctx.quick:
         streams = [s for i, s in enumerate(streams) if i % ctx.nshards == ctx.shard or i < 4]
 
-    GAPS = ['yield', 'yield', 'eof-with-last', 'burst']
+    GAPS = ['yield', 'pause', 'yield', 'eof-with-last', 'burst']
     gap_i = [0]
 
     async def body(S):
+        S.loop.max_vt = 3600.0 * 24 * 3650      # (the pauses between reads add up to weeks of virtual time)
         for si, packets in enumerate(streams):
             data = b''.join(packets)
             n = len(data)
